@@ -295,6 +295,25 @@ pub fn diverge_key(src: &str, sl: &Lexed, out: &str) -> String {
     "at-END".to_string()
 }
 
+/// When every source token is found in the output and it still does not parse, the construct is
+/// named by the place of the first parse error in the OUTPUT: the token kinds around it.
+fn unparseable_key(src: &str, sl: Option<&Lexed>, out: &str, err: &str) -> String {
+    let at = sl.map_or("?".to_string(), |sl| diverge_key(src, sl, out));
+    if at != "at-END" {
+        return at;
+    }
+    let pos: usize = err.chars().take_while(|c| c.is_ascii_digit()).collect::<String>().parse().unwrap_or(0);
+    match lexm::lex_real(out) {
+        Ok(ol) if pos > 0 => {
+            let p = pos - 1;
+            let idx = ol.toks.iter().position(|t| t.end > p || t.start >= p).unwrap_or(ol.toks.len());
+            let has_comment = ol.comments.iter().any(|c| c.gap == idx);
+            format!("out@{}{}", gap_desc(&ol, idx.min(ol.toks.len())), if has_comment { "+comment" } else { "" })
+        }
+        _ => at,
+    }
+}
+
 fn node_before(canon: &str, pos: usize) -> String {
     // the closest enclosing Debug constructor name before `pos`
     let b = canon.as_bytes();
@@ -383,7 +402,7 @@ pub fn evaluate(vm: &RootedThread, name: &str, src: &str) -> Eval {
     match canon_ast(&out) {
         Err(e) => failures.push(Failure {
             cat: "fmt-output-unparseable".into(),
-            key: format!("fmt-output-unparseable:{}", sl.as_ref().map_or("?".to_string(), |sl| diverge_key(src, sl, &out))),
+            key: format!("fmt-output-unparseable:{}", unparseable_key(src, sl.as_ref(), &out, &e)),
             what: "the formatted text does not parse".into(),
             detail: e.chars().take(400).collect(),
         }),
